@@ -82,4 +82,15 @@ example : early exF (some 64) false 40 (some 50) = .timeout408 := by decide
     codes and literals the model was written against (`Oidc/Shapes.lean`) -/
 theorem shape_ServeHTTP_ok : Oidc.Shapes.Shape_ServeHTTP := by unfold Oidc.Shapes.Shape_ServeHTTP; rfl
 
+/-! obligations against the regenerated program text: the functions these theorems rest on read, statement for statement, as
+    they did when the model was written after them (`Oidc/Shapes.lean`) -/
+theorem text_TraefikOidc_initializeMetadata_ok : Oidc.Shapes.Text_TraefikOidc_initializeMetadata := by unfold Oidc.Shapes.Text_TraefikOidc_initializeMetadata; rfl
+theorem text_TraefikOidc_updateMetadataEndpoints_ok : Oidc.Shapes.Text_TraefikOidc_updateMetadataEndpoints := by unfold Oidc.Shapes.Text_TraefikOidc_updateMetadataEndpoints; rfl
+theorem text_TraefikOidc_startMetadataRefresh_ok : Oidc.Shapes.Text_TraefikOidc_startMetadataRefresh := by unfold Oidc.Shapes.Text_TraefikOidc_startMetadataRefresh; rfl
+theorem text_discoverProviderMetadata_ok : Oidc.Shapes.Text_discoverProviderMetadata := by unfold Oidc.Shapes.Text_discoverProviderMetadata; rfl
+theorem text_fetchMetadata_ok : Oidc.Shapes.Text_fetchMetadata := by unfold Oidc.Shapes.Text_fetchMetadata; rfl
+theorem text_MetadataCache_GetMetadata_ok : Oidc.Shapes.Text_MetadataCache_GetMetadata := by unfold Oidc.Shapes.Text_MetadataCache_GetMetadata; rfl
+theorem text_MetadataCache_isCacheValid_ok : Oidc.Shapes.Text_MetadataCache_isCacheValid := by unfold Oidc.Shapes.Text_MetadataCache_isCacheValid; rfl
+theorem text_MetadataCache_Cleanup_ok : Oidc.Shapes.Text_MetadataCache_Cleanup := by unfold Oidc.Shapes.Text_MetadataCache_Cleanup; rfl
+
 end Oidc.Props.C20
